@@ -6,7 +6,16 @@ import random
 
 from .common import h32, VERIF_DIR
 
-E1_PROPS = ('C01', 'C02', 'C03', 'C04', 'C05', 'C18', 'C20')
+E1_PROPS = ('C01', 'C02', 'C03', 'C04', 'C05', 'C06', 'C07', 'C09', 'C12', 'C18', 'C20')
+
+# violations of these other monitors count for the property when they occur in its scenarios
+ALSO = {
+    'C06': ('C01', 'C02', 'C04', 'C05'),     # rebuilt state / acknowledged commands / convergence after restarts
+    'C07': (),
+    'C09': ('C01', 'C05'),                   # state after install = prefix; lagging follower converges
+    'C12': ('C01', 'C02', 'C05'),            # no stall, no split
+    'C18': ('C02', 'C04', 'C05'),
+}
 
 CASES = {
     'C01': {'quick': 1600, 'thorough': 24000},
@@ -14,6 +23,10 @@ CASES = {
     'C03': {'quick': 1600, 'thorough': 24000},
     'C04': {'quick': 1600, 'thorough': 24000},
     'C05': {'quick': 1000, 'thorough': 14000},
+    'C06': {'quick': 1200, 'thorough': 16000},
+    'C07': {'quick': 1600, 'thorough': 24000},
+    'C09': {'quick': 1000, 'thorough': 14000},
+    'C12': {'quick': 1200, 'thorough': 16000},
     'C18': {'quick': 1400, 'thorough': 20000},
     'C20': {'quick': 1600, 'thorough': 24000},
 }
@@ -27,6 +40,12 @@ DECIDING = {
     'C04': ('commit_with_2plus_ae_in_flight', 'commit_of_older_term_entry', 'truncation', 'commit_after_follower_shrank'),
     'C05': ('quiet_follower_needs_snapshot', 'quiet_half_received_snapshot', 'quiet_divergent_logs', 'quiet_stale_leader',
             'quiet_queued_commands'),
+    'C06': ('kill_inside_trim', 'kill_inside_clear', 'restart_loaded_dump', 'restart_after_kill_inside_journal_op', 'all_voters_dead',
+            'kill_at_primitive', 'restart_with_journal'),
+    'C07': ('vote_granted_then_killed', 'restart_in_election', 'restarted_voter_votes'),
+    'C09': ('snapshot_load', 'snapshot_received_completely', 'snapshot_transfer_restarted', 'kill_during_dump_write',
+            'snapshot_taken_with_consumers'),
+    'C12': ('apply_raised', 'raise_on_follower', 'raise_replayed_after_restart'),
     'C18': ('ro_join', 'ro_leave', 'ro_submit', 'voters_without_majority_observers_connected'),
     'C20': ('leader_silent_half_timeout', 'leader_stepdown', 'quorum_flag_false', 'leader_cut_off'),
 }
@@ -94,6 +113,65 @@ def gen_cfg(prop, tier, seed, i):
         w['partition'] = max(w['partition'], 0.8)
         w['heal'] = max(w['heal'], 0.4)
         cfg['dt_heavy'] = r.random() < 0.3
+    if prop == 'C06':
+        cfg['journal'] = pick(r, ['file', 'file+dump'], [1, 2])
+        cfg['kill_points'] = True
+        w['kill'] = pick(r, [0.2, 0.5, 1.0])
+        w['restart'] = pick(r, [0.6, 1.2, 2.5])
+        cfg['bias'] = pick(r, ['none', 'ackstarve', 'slowfollower'], [3, 1, 1])
+        cfg['batch'] = pick(r, [200, 4096, 65536])
+        cfg['chunk'] = pick(r, [50, 1000, 65536])
+        if cfg['journal'] == 'file':
+            # journal without dump: compaction makes a restart impossible (listed finding); keep it rare
+            if r.random() < 0.9:
+                cfg['compact_min'] = 10 ** 9
+                w['compact'] = 0
+        else:
+            cfg['compact_min'] = pick(r, [5, 20, 10 ** 9], [3, 2, 1])
+            w['compact'] = max(w['compact'], 0.4)
+        cfg['ext'] = ['recovery', 'snapshot']
+        cfg.pop('consumers', None)
+    if prop == 'C07':
+        cfg['journal'] = 'file'
+        cfg['compact_min'] = 10 ** 9
+        w['compact'] = 0
+        w['kill'] = pick(r, [0.3, 0.8])
+        w['restart'] = pick(r, [1.0, 3.0])
+        w['partition'] = max(w['partition'], 0.5)
+        w['heal'] = max(w['heal'], 0.6)
+        w['submit'] = min(w['submit'], 2)
+        cfg['votekill'] = pick(r, [0.0, 0.3, 0.7])
+        cfg['raft_min'], cfg['raft_max'] = pick(r, [(0.4, 1.4), (0.31, 0.5), (0.4, 0.45)])
+        cfg['batch'] = pick(r, [200, 4096, 65536])
+        cfg['ext'] = ['recovery']
+    if prop == 'C09':
+        cfg['journal'] = pick(r, ['memory', 'file+dump', 'dump'], [2, 2, 1])
+        cfg['compact_min'] = pick(r, [3, 8, 30])
+        w['compact'] = pick(r, [0.4, 1.2, 3.0])
+        cfg['chunk'] = pick(r, [1, 7, 50, 1000, 65536], [1, 2, 3, 2, 2])
+        cfg['batch'] = pick(r, [40, 200, 4096, 65536], [1, 3, 2, 2])
+        w['drop'] = pick(r, [0.5, 1.5, 4.0])
+        w['connect'] = max(w['connect'], 2.5)
+        cfg['consumers'] = r.sample(['list', 'dict', 'set', 'counter', 'queue', 'pqueue'], r.randint(0, 6))
+        if cfg['journal'] == 'file+dump' and r.random() < 0.5:
+            cfg['kill_points'] = True
+            w['kill'] = 0.3
+            w['restart'] = 1.0
+        cfg['ext'] = ['snapshot']
+        cfg['steps'] = pick(r, [800, 2000, 4000], [2, 3, 2])
+    if prop == 'C12':
+        cfg['raising'] = True
+        cfg['consumers'] = ['list', 'set']
+        for k in ('drop', 'partition'):
+            w[k] = w[k] * pick(r, [0, 0.3, 1])
+        if r.random() < 0.5:
+            cfg['journal'] = 'file'
+            cfg['compact_min'] = 10 ** 9
+            w['compact'] = 0
+            w['kill'] = 0.3
+            w['restart'] = 1.5
+        cfg['batch'] = pick(r, [200, 4096, 65536])
+        cfg['chunk'] = pick(r, [50, 65536])
     cfg['liveness'] = cfg['batch'] >= 200 and cfg['chunk'] >= 50
     return cfg
 
@@ -105,7 +183,12 @@ def summarize_cfg(cfg):
 
 def make_sim(prop, cfg, seed):
     from .clustersim import Sim
-    return Sim(cfg, seed)
+    sim = Sim(cfg, seed)
+    for name in cfg.get('ext', []):
+        from . import ext_monitors as X
+        cls = {'recovery': X.RecoveryMonitor, 'snapshot': X.SnapshotMonitor, 'args': X.ArgsMonitor}[name]
+        sim.mon.ext.append(cls(sim.mon))
+    return sim
 
 
 def result_of(prop, sim, cfg, run_seed, case):
@@ -130,9 +213,21 @@ def result_of(prop, sim, cfg, run_seed, case):
         'other_props': {},
     }
     res['obs']['steps'] = sim.step
+    for k in ('kill_at_primitive', 'restart'):
+        if sim.stats.get(k):
+            sit[{'restart': 'restart_with_journal'}.get(k, k)] = sim.stats[k]
+    if mon.obs.get('apply_raised'):
+        sit['apply_raised'] = mon.obs['apply_raised']
+    dec = [k for k in DECIDING.get(prop, ()) if sit.get(k)]
+    res['nontrivial_fps'] = [fp] if dec else []
+    res['sit'] = sit
     for v in sim.violations:
         rec = v.record()
-        if v.prop == prop:
+        if v.prop == prop or v.prop in ALSO.get(prop, ()):
+            if v.prop != prop:
+                rec['facts'] = dict(rec.get('facts', {}), via=v.prop)
+                rec['kind'] = '%s_%s' % (v.prop, rec['kind'])
+                rec['prop'] = prop
             rec['replay'] = save_replay(prop, cfg, run_seed, case, sim, rec)
             res['violations'].append(rec)
         else:
